@@ -4,6 +4,9 @@ From Frugal Require Import Bytes Wire Skip Values Desc Spec Encode Decode Checks
 From Frugal.gen Require Import Params.
 From Frugal.proofs Require Import StateProofs.
 From Frugal.props Require Import Examples.
+From Frugal Require Import TypeCache CacheChecks.
+From Frugal.gen Require Import CacheKey.
+From Frugal.proofs Require Import GenCacheKey TypeCacheProofs.
 Import ListNotations.
 
 (* every call's outcome, after ANY history of calls (valid and invalid types, failing calls, any
@@ -28,3 +31,21 @@ Print Assumptions C07_pool_irrelevant.
 Example C07_instance : decode_object env_ex [1; 5; 300; 7] 0 [8; 0; 1; 0; 0; 0; 9; 0] (fresh env_ex 0)
   = decode_object env_ex [] 0 [8; 0; 1; 0; 0; 0; 9; 0] (fresh env_ex 0).
 Proof. vm_compute. reflexivity. Qed.
+
+(* ---- the process-wide type-node cache (internal/reflect/ttype.go newTType; TypeCache.v) ----
+   keyed by (x.String(), x.S) -- read from the source on every run (cache_key_ok) -- it is
+   transparent: over ANY history of requests the node handed out for a (Go type, parsed Thrift type)
+   is the one a fresh process would build, with the schema type the tags say.  (Without the printed
+   Thrift type in the key a named int64 registered first as enum stays an enum for the whole
+   process: TypeCacheProofs.cache_opaque_without_T.) *)
+Theorem C07_type_cache_transparent : forall reqs, cache_key_ok = true -> Forall shaped reqs ->
+  snd (serve ttypes_key_has_T ttypes_key_has_S [] reqs) = map (fun r => node_of (fst r) (snd r)) reqs.
+Proof. exact cache_transparent_src. Qed.
+
+Theorem C07_type_cache_schema : forall reqs, Forall shaped reqs ->
+  map node_ty (snd (serve true true [] reqs)) = map (fun r => ty_of (snd r)) reqs.
+Proof. exact cache_transparent_ty. Qed.
+
+Theorem C07_cache_key : cache_key_ok = true.
+Proof. exact cache_key_ok_holds. Qed.
+Print Assumptions C07_type_cache_transparent.
